@@ -35,6 +35,8 @@ def to_actions(script, T):
             out.append(("raw", secs(a[1], T), a[2] if isinstance(a[2], bytes) else bytes.fromhex(a[2])))
         elif k == "multi":
             out.append(("multi", [(secs(d, T), b if isinstance(b, bytes) else bytes.fromhex(b)) for d, b in a[1]]))
+        elif k == "pieces":
+            out.append(("pieces", [(p[0], p[1], secs(p[2], T)) if p[0] in ("head", "tail") else (p[0], secs(p[1], T)) for p in a[1]]))
         elif k == "exc":
             out.append(("exc", secs(a[1], T), a[2]))
         elif k in ("frag", "frag_then_full"):
